@@ -114,7 +114,13 @@ class Fake:
                 fake.queues.append(self)
 
             def put(self, x):
-                self.items.append(x)
+                # multiprocessing.Queue pickles in a feeder thread; an item that cannot be pickled is dropped there (traceback on stderr)
+                try:
+                    import pickle
+                    pickle.dumps(x)
+                    self.items.append(x)
+                except Exception:
+                    S.events.append("unpicklable-item-dropped-by-queue")
                 S.switch(me())
 
             def get(self, block=True, timeout=None):
@@ -214,7 +220,7 @@ class Fake:
 _lock = threading.Lock()
 
 
-def run_case(n, par, max_tasks, fail_ids, tolerate, choices, consumer_delays, use_run=False, max_steps=None):
+def run_case(n, par, max_tasks, fail_ids, tolerate, choices, consumer_delays, use_run=False, max_steps=None, unpicklable_ids=()):
     """runs Parallel(f).irun(range(n)) under the schedule; returns a dict describing the outcome"""
     import annet.parallel as P
     logging.disable(logging.CRITICAL)
@@ -233,9 +239,13 @@ def run_case(n, par, max_tasks, fail_ids, tolerate, choices, consumer_delays, us
 
     fail_ids = set(fail_ids)
 
+    unpicklable_ids = set(unpicklable_ids or ())
+
     def f(x):
         if x in fail_ids:
             raise ValueError("boom-%s" % x)
+        if x in unpicklable_ids:
+            return {"value": x * 2 + 1, "render": (lambda: x)}   # a container holding something that cannot be pickled
         return x * 2 + 1
 
     out = {"delivered": [], "raised": None, "bound": False, "run_result": None}
